@@ -1316,7 +1316,7 @@ class Generator:
         pt = self.pick_table(lambda p: not p.m.grouping and len(p.m.visible) >= 2 and "polars" in p.real)
         if pt is None:
             return None
-        names = [n for n in pt.m.names() if n not in ("w__", "m__", "e__")]
+        names = [n for n in pt.m.names() if n not in ("w__", "m__", "e__", "cs__")]
         ints = [n for n, t in pt.m.visible if T[t].kind == "int" and n in names]
         if not ints or len(names) != len(pt.m.names()):
             return None
@@ -1334,8 +1334,21 @@ class Generator:
         for _ in range(rng.choice([0, 1, 1, 2, 2, 3])):
             if not ints:
                 break
-            k = rng.choice(["select", "alias", "summarize", "filter", "arrange", "slice", "mutate", "join_right", "slice"])
-            if k == "select":
+            k = rng.choice(["select", "alias", "summarize", "filter", "arrange", "slice", "mutate", "join_right", "slice", "case"])
+            if k == "case" and len(ints) >= 2 and "w__" not in names and rng.random() < 0.6:
+                # a hidden overwritten column, its successor of the same name and a column called like the
+                # label the sub-query generates for the second of them (`<name>_1`) meet behind a sub-query
+                a, o = rng.sample(ints, 2)
+                if f"{a}_1" not in names:
+                    chain.append({"v": "hidden_label", "a": a, "o": o, "n": rng.choice([1, 1, 2])})
+                    break
+            if k == "case":
+                # a case expression without `otherwise` (default null), as a new column, a filter or a sort key
+                chain.append({"v": "case", "a": rng.choice(ints), "c": rng.randrange(0, 4), "pos": rng.choice(["mutate", "filter", "arrange"]), "two": rng.random() < 0.4})
+                if chain[-1]["pos"] == "mutate":
+                    names = [n for n in names if n != "cs__"] + ["cs__"]
+                    ints = [n for n in ints if n != "cs__"] + ["cs__"]
+            elif k == "select":
                 cols = rng.sample(names, rng.randint(1, len(names)))
                 if "w__" in cols and rng.random() < 0.6:
                     cols = ["w__"] + [c for c in cols if c != "w__"]
